@@ -336,7 +336,7 @@ def probe_corpus(h, rng, tier, forms_by_arch):
 
 
 def gen_sessions(rng, tier, forms_by_arch, corpus=None):
-    n = 700 if tier == "quick" else 9000
+    n = 700 if tier == "quick" else 20000
     sessions = []
     for k in range(n):
         arch = rng.choice(("x64", "x64", "x86", "a64", "a64"))
@@ -488,19 +488,56 @@ def run_session_lines(h, lines):
     return vlib.run_lines([str(h)], lines, timeout=3000)
 
 
+MAX_ABORTS = 8
+
+
+def run_harness(h, sessions):
+    """the sessions go through the harness in chunks; a session in which the real code aborts (sanitizer report, crash, no return) is
+    recorded and dropped and the run continues with the sessions after it, so that one run can exhibit several distinct aborts.
+    Returns ({session index: answers}, [(session index, op index, stderr tail)])."""
+    answers, aborts = {}, []
+    pending = list(range(len(sessions)))
+    CH = 400
+    while pending and len(aborts) < MAX_ABORTS:
+        chunk, pending = pending[:CH], pending[CH:]
+        while chunk and len(aborts) < MAX_ABORTS:
+            flat = [op for si in chunk for op in sessions[si]]
+            out, rc, err = run_session_lines(h, flat)
+            if rc == 0 and len(out) == len(flat):
+                k = 0
+                for si in chunk:
+                    answers[si] = out[k:k + len(sessions[si])]
+                    k += len(sessions[si])
+                break
+            out, rc, err = vlib.run_lines([str(h)], flat, timeout=3000, env={"VH_FLUSH": "1"})
+            at = min(len(out), len(flat) - 1)
+            k = 0
+            for pos, si in enumerate(chunk):
+                n = len(sessions[si])
+                if at < k + n:
+                    aborts.append((si, at - k, err[-3000:]))
+                    chunk = chunk[pos + 1:]
+                    break
+                answers[si] = out[k:k + n]
+                k += n
+            else:
+                chunk = []
+    return answers, aborts
+
+
 def judge(h, sessions, names):
     """runs harness, monitor and model over the sessions.  Returns dict(aborts, bad, diffs, stats)."""
-    flat, owner = [], []
+    answers, aborts = run_harness(h, sessions)
+    flat, owner, impl = [], [], []
     for si, s in enumerate(sessions):
+        if si not in answers:
+            continue
         for oi, op in enumerate(s):
             flat.append(op)
             owner.append((si, oi))
-    impl, rc, err = run_session_lines(h, flat)
-    res = {"abort": None, "bad": [], "diffs": [], "impl": impl, "flat": flat, "owner": owner, "protocol": None}
-    if rc != 0 or len(impl) != len(flat):
-        i, tail = vlib.locate_abort([str(h)], flat, timeout=3000)
-        res["abort"] = (i, tail)
-        return res
+        impl += answers[si]
+    res = {"abort": aborts[0] if aborts else None, "aborts": aborts, "bad": [], "diffs": [], "impl": impl, "flat": flat, "owner": owner,
+           "protocol": None, "mon_n": 0, "mod_n": 0, "tainted": 0}
     mon_lines, mon_idx, mod_lines, mod_idx, mod_exp, mod_unk = [], [], [], [], [], []
     tainted = set()
     hdr = None
@@ -659,25 +696,28 @@ def run(res):
     r = judge(h, sessions, names)
     flat, owner, impl = r["flat"], r["owner"], r["impl"]
 
-    if r["abort"]:
-        i, tail = r["abort"]
-        si, oi = owner[min(i, len(owner) - 1)]
-        first = [l for l in tail.splitlines() if "runtime error" in l or "ERROR: AddressSanitizer" in l or "SUMMARY" in l][:2]
+    seen_abort = set()
+    for si, oi, tail in r["aborts"]:
+        first = [l.strip() for l in tail.splitlines() if "runtime error" in l or "ERROR: AddressSanitizer" in l or "SUMMARY" in l][:2]
+        loc = re.search(r"([\w./-]+\.(?:cpp|h)):(\d+)", first[0]) if first else None
+        where = "%s:%s" % (loc.group(1).split("/")[-1], loc.group(2)) if loc else "?"
         ops = sessions[si][:oi + 1]
+        w = ops[-1].split()
+        key = "abort:%s:%s:%s" % (ops[0].split()[1], w[0], where)
+        if key in seen_abort:
+            continue
+        seen_abort.add(key)
 
         def crashes(cand):
             rr = judge(h, [[ops[0]] + cand + [ops[-1]]], names)
             return rr["abort"] is not None
 
         if len(ops) > 2 and crashes(ops[1:-1]):
-            ops = [ops[0]] + vlib.ddmin(ops[1:-1], crashes, max_tests=80) + [ops[-1]]
-        w = ops[-1].split()
-        res.violation("real code aborts under ASan/UBSan (or does not return) in session %r at call %r: %s" % (ops[0], ops[-1], " | ".join(first) or tail[-300:]),
-                      {"ops": ops, "stderr": tail[-2500:]}, found_input=True, key="abort:%s:%s" % (ops[0].split()[1], w[0]))
-        # the rest of the evidence cannot be gathered in this run
-        if broken:
-            res.violation("proof obligation no longer checks: " + " | ".join(broken)[:1500], {"unchecked": broken}, False, key="obligation")
-        return
+            ops = [ops[0]] + vlib.ddmin(ops[1:-1], crashes, max_tests=60) + [ops[-1]]
+        res.violation("real code aborts under ASan/UBSan (or does not return) in session %r at call %r: %s" % (ops[0], ops[-1], " | ".join(first)[:400] or tail[-300:]),
+                      {"ops": ops, "stderr": tail[-2500:]}, found_input=True, key=key)
+    if r["aborts"]:
+        res.notes.append("%d sessions aborted and were dropped; the rest of the run was judged" % len(r["aborts"]))
     if r["protocol"]:
         res.violation(r["protocol"], {}, found_input=False, key="protocol")
         return
@@ -714,7 +754,7 @@ def run(res):
     res.coverage["monitored_answers"] = r["mon_n"]
     res.coverage["sessions_cut_at_defect_18_C03"] = r["tainted"]
     res.coverage["traces_validated_against_impl"] = r["mod_n"]
-    idxs = [i for i in (5, len(flat) // 3, len(flat) // 2, len(flat) - 2) if flat[i].split()[0] != "new"]
+    idxs = [i for i in (5, len(flat) // 3, len(flat) // 2, len(flat) - 2) if 0 <= i < len(flat) and flat[i].split()[0] != "new"]
     res.add_samples([{"op": flat[i], "impl": impl[i][:300]} for i in idxs])
 
     # ---- classify ----
